@@ -110,7 +110,7 @@ def gen(rng, tier):
     extra_supplied = rng.random() < 0.25
     if extra_supplied:
         shapes.append('supplied_undeclared_var')
-    sc = {'kind': kind, 'cls': cls, 'pastify': pastify, 'vars': vars_, 'declared': declared, 'ast': ast, 'injected': injected,
+    sc = {'early_update': rng.random() < 0.25, 'kind': kind, 'cls': cls, 'pastify': pastify, 'vars': vars_, 'declared': declared, 'ast': ast, 'injected': injected,
           'extra_supplied': extra_supplied, 'do_reset': kind in ('dt_on', 'ct_on') and rng.random() < 0.2,
           'spell_seed': rng.randrange(1 << 30)}
     if dense:
@@ -216,6 +216,20 @@ def run(sc):
         spec = M.new_spec(desc)
         stage = 'parse'
         M.api('parse', spec.parse)
+        if sc.get('early_update') and sc['pastify'] and not unsupported and sc['kind'] in ('dt_on', 'ct_on') \
+                and any(x[0] in sg.FUTURE_OPS for x in sg.walk(sc['ast'])):
+            # the application calls update() BEFORE pastify(): a bounded-future specification is rejected (that is the clean
+            # rejection the property asks for); it then calls pastify() and uses the same object - which must work
+            r.faults['rejected_update_before_pastify'] += 1
+            try:
+                if dense:
+                    M.ct_update(spec, dict((v, data[v][:1]) for v in sc['declared']), list(sc['order']))
+                else:
+                    M.dt_update(spec, 0, [(v, data[v][0]) for v in sc['order']])
+                r.violate('unsupported-construct-yielded-a-value', kind=sc['cls'], pastify=False, spec=desc['spec'], stage='update before pastify')
+            except M.ApiCrash as e0:
+                if not e0.is_rtamt:
+                    r.violate('unsupported-construct-wrong-exception', kind=sc['cls'], pastify=False, spec=desc['spec'], **e0.describe())
         if sc['pastify']:
             stage = 'pastify'
             M.api('pastify', spec.pastify)
